@@ -25,6 +25,10 @@ EXPLANATION = (
     "leaves changepoints >= m apart / anomalies disjoint (invariant of a data-dependent loop; the masks implementing it are "
     "decided), strict monotonicity of PELT's backtrack (follows from the start set)."
 )
+# obligations added during the build phase (seeding rounds, twins, mutation analysis)
+ADDED_IN_BUILD = " Also: the bindings of the length limits and driver arguments (C02.g, C03.i lengths, C07.e, C08.d, C09.f) and C17's position-order / per-group / no-merging obligations are shared: the limits the detections must respect are the configured ones only if they reach the driver."
+EXPLANATION = EXPLANATION + ADDED_IN_BUILD
+
 ASSUMPTIONS = [
     "Python's ast module and evaluation-order/argument-binding semantics as implemented in skverif/symex.py",
     "library model table skverif/models.py (pd.DataFrame without index= gets a RangeIndex; IntervalIndex.from_tuples; np.argsort is a permutation)",
